@@ -97,6 +97,11 @@ FIXED = [
  ("C15", "fix: sort orders an array that contains nil or values of different kinds", "{{ a | sort }} with a = [3, nil, 1, 2] returned [3, nil, 1, 2]; [3, \"b\", 1, \"a\"] came back unchanged: 3 stands before 1"),
  ("C16", "fix: the size filter takes a number or boolean receiver as the text it prints as", "{{ 12 | size }} was 0 although numbers and booleans given as receivers are first converted to the text they print as"),
  ("C17", "fix: a zero result prints as 0, never as -0", "{{ 0 | times: -1 }} and {{ -3 | modulo: 3 }} printed -0"),
+ ("C01", "fix: a nil pointer whose type is a Drop is nil instead of a panic", "a binding (*D)(nil), D a Drop with a value receiver, made every use of it panic out of Render (ToLiquid called through the nil pointer)"),
+ ("C18", "fix: a whole float32 prints as its exact value", "float32(1073741824) printed 1073741800 where the float64 of the same value prints 1073741824"),
+ ("C01", "fix: unterminated raw or comment tags are scanned in linear time", "180 KB of unterminated {% raw %} tags took 38 s to reject (the end tag search ran to the end of the source once per tag; introduced by the wave-7 repair of raw bodies)"),
+ ("C01", "fix: an expression longer than a mebibyte is a syntax error, and blocks nest at most 1000 deep", "22 MB of chained properties / indices / or-operators in one expression, and a file that includes itself from inside 10000 nested blocks (240 KB), ended the process with a fatal stack overflow"),
+ ("C01", "fix: long value lists of when and cycle are parsed in linear memory", "{% when 1,1,...,1 %} with 8000 values took 524 MB, with 100000 values (a 200 KB template) the process was killed"),
 ]
 KNOWN = [
  # (property, key, what)
